@@ -5,12 +5,16 @@
    with the keys that matched it.  What is proved: whatever commands run between the
    start and the end of a recording, the replay feeds back exactly the keys those
    commands were called with, in order, in both styles - so that dispatching the fed
-   keys is dispatching the recorded ones.  That dispatching fed keys equals dispatching
-   typed bytes is proved for the single-byte keys only (fed keys are popped as
-   byte(rune)); it is refuted for characters above 0x7f (known finding), and the timing
-   of a lone ESC in vi keymaps cannot be replayed (known finding): DESIGN.md C18. *)
-From Model Require Import Base Uni Notation Utf8 Macro.
-From Proofs Require Import NotationP MacroP.
+   keys is dispatching the recorded ones.  That the Readline loop then runs on the fed keys
+   exactly as on the same bytes returned by a read is C18_fed_keys_run_like_typed_bytes
+   (Proofs/FeedP.v: a simulation between key stacks holding fed keys and key stacks holding
+   their bytes, through Keys.Peek/Pop/MatchedKeys/MatchedPrefix/WaitAvailableKeys, the
+   dispatcher and the loop, for every keymap without macro bindings, every command
+   semantics and any fuel); fed keys are popped as byte(rune), which is the typed byte for
+   single-byte keys only: it is refuted for characters above 0x7f (known finding), and
+   the timing of a lone ESC in vi keymaps cannot be replayed (known finding): DESIGN.md C18. *)
+From Model Require Import Base Uni Notation Utf8 Macro Dispatch.
+From Proofs Require Import NotationP MacroP FeedP.
 Open Scope Z_scope.
 
 (* the recorded text survives its inputrc notation (the codec of C19) *)
@@ -44,6 +48,23 @@ Theorem C18_single_byte_keys_are_replayed_as_typed : forall k s,
   (Forall (fun c => 0 <= c < 256) (m_fed s) -> fed_bytes s = m_fed s).
 Proof. intros k s H. split; [apply norm_ascii; exact H | apply fed_bytes_small]. Qed.
 
+(* the macro command has run and fed `rs` back: from there the loop (any keymap without
+   macro bindings, any command semantics `exec`, any fuel) behaves exactly as if the bytes
+   of `rs` were returned by the next read - same commands with the same keys, same
+   engine, same application state, same outcome (returned / waiting / ended), key stacks
+   holding the same bytes *)
+Theorem C18_fed_keys_run_like_typed_bytes : forall A exec t fuel eng app m rs ins,
+  t <> [] -> table_no_macros t -> eng_ok eng -> rs <> [] ->
+  let k0 := {| k_buf := []; k_macro := []; k_matched := m; k_must_wait := false |} in
+  orel A (loop A exec (S fuel) false t {| l_eng := eng; l_keys := feed k0 rs; l_app := app |} ins)
+         (loop A exec (S fuel) false t {| l_eng := eng; l_keys := k0; l_app := app |} (Chunk (map b256 rs) :: ins)).
+Proof. exact fed_like_typed. Qed.
+
+(* ... and in general: two loops whose key stacks hold the same bytes, one of them as fed keys *)
+Theorem C18_loop_simulation : forall A exec t, t <> [] -> table_no_macros t ->
+  forall fuel cm st1 st2 ins, srel A st1 st2 -> orel A (loop A exec fuel cm t st1 ins) (loop A exec fuel cm t st2 ins).
+Proof. exact loop_R. Qed.
+
 (* refuted beyond one byte: a recorded character such as U+4E16 is fed back as one rune
    and popped as byte(rune) = 0x16, not as its UTF-8 bytes e4 b8 96 *)
 Theorem C18_multibyte_keys_refuted :
@@ -57,3 +78,12 @@ Example C18_example :
   = [97; 1; 27; 98; 39; 92]
   /\ forallb dom [97; 1; 27; 98; 39; 92] = true /\ norm [24; 40] <> [].
 Proof. split; [vm_compute; reflexivity | split; [vm_compute; reflexivity | vm_compute; discriminate]]. Qed.
+
+(* non-vacuity of the simulation: the live emacs keymap has no macro bindings in it, and the
+   initial engine is eng_ok *)
+Example C18_sim_example : eng_ok {| e_active := no_bind; e_prefixed := no_bind; e_vi := false |}
+  /\ srel (list Z) (init_state _ false []) (init_state _ false []).
+Proof. split; [split; reflexivity|]. repeat split; reflexivity. Qed.
+
+Print Assumptions C18_fed_keys_run_like_typed_bytes.
+Print Assumptions C18_loop_simulation.
